@@ -237,6 +237,16 @@ impl<VM: VMBinding> Space<VM> for MallocSpace<VM> {
             .verify_metadata_context(std::any::type_name::<Self>(), &self.metadata)
     }
 
+    #[cfg(feature = "mmtk_verif")]
+    fn verif_side_metadata_specs(
+        &self,
+    ) -> (
+        &[crate::util::metadata::side_metadata::SideMetadataSpec],
+        &[crate::util::metadata::side_metadata::SideMetadataSpec],
+    ) {
+        (&self.metadata.global, &self.metadata.local)
+    }
+
     fn enumerate_objects(&self, _enumerator: &mut dyn ObjectEnumerator) {
         unimplemented!()
     }
